@@ -179,6 +179,20 @@ def run_case(c) -> dict:
                 f[f"C14:known-kid-refused:{where}:{exc_key(err)}"] = f"token under key {kids[c['target']]!r} (kid in {c['pos']}) refused: {type(err).__name__}: {err}"
             elif got != payload:
                 f[f"C14:known-kid-wrong-content:{where}"] = repr(got)
+            elif len(c["keys"]) >= 2:
+                # rotation: the key is taken out of the (long-lived) set; its kid now names no key of the set
+                for ks in (privset, pubset):
+                    if c["seed"] % 2:
+                        ks.keys.remove(ks.keys[c["target"]])
+                    else:
+                        ks.keys = [k for i, k in enumerate(ks.keys) if i != c["target"]]
+                try:
+                    call()
+                    f[f"C14:retired-kid-accepted:{where}"] = f"key {kids[c['target']]!r} was removed from the set after a first use, a token naming it is still accepted"
+                except InvalidKeyIdError:
+                    pass
+                except Exception as e:
+                    f[f"C14:retired-kid-wrong-error:{where}:{type(e).__name__}"] = f"kid {kids[c['target']]!r} no longer in the set: {type(e).__name__}: {e} instead of InvalidKeyIdError"
         elif st_ == "mislabelled":
             if err is None:
                 f[f"C14:wrong-key-used:{where}"] = (f"token made under key {kids[c['other']]!r} but labelled kid={kids[c['target']]!r} was accepted: "
